@@ -651,6 +651,99 @@ def rule_k_poly(k):
                     )
 
 
+def rule_k_complete(k):
+    """C01.3c: within one co-iteration region (terminals under the same innermost loop) a terminal
+    computes every monomial that the region computes anywhere and whose compressed-level leaves are
+    all Matched on the path to the terminal: no present operand is dropped in a branch arm. (K-poly
+    shows nothing else is computed and that every monomial is computed in some region.)"""
+    ns = k.ns
+    info = get_info(k)
+    from .flags import has_zero_literal
+
+    if has_zero_literal(k):
+        return
+    occ_keys = [(o[0], o[2]) for o in info.occurrences]
+    if len(set(occ_keys)) != len(occ_keys):
+        # two occurrences of one tensor with the same index tuple get separate cursors over the same
+        # data; which occurrence a matched coordinate belongs to is not recoverable from the matches
+        return
+    fm = k.problem.formats
+    tgt = set(info.target_indexes)
+    monos = []
+    for c, m in sugar_monomials(ns, k.problem.assignment.expression):
+        if c == 0:
+            continue
+        facs = []
+        for name, ixs in m:
+            f = fm[name]
+            levels = tuple(ixs[d] for d in f.ordering)
+            facs.append((name, levels, tuple(f.modes)))
+        idx = set()
+        for name, ixs in m:
+            idx |= set(ixs)
+        monos.append((c, facs, idx))
+    for kind in ("evaluate", "compute"):
+        terminals, _ = collect(k, kind)
+        roles = get_roles(k, kind)
+        k.instance("C01.K-complete")
+        # monomials are distributed over the terminals of one co-iteration region (same innermost loop);
+        # sibling sum terms iterate in their own loop nests and are separate regions
+        universe = {}
+        for t in terminals:
+            region = tuple(id(li.node) for li in t.loops)
+            for coef, reads, other in t.terms:
+                if coef != 0 and all(r.ixs is not None for r in reads):
+                    universe.setdefault(region, set()).add(tuple(sorted((r.tensor, tuple(r.ixs)) for r in reads)))
+        for t in terminals:
+            loops = {li.ix for li in t.loops if li.ix is not None}
+            if any(r.ixs is None for _, reads, _ in t.terms for r in reads):
+                continue  # K-addr reports it
+            region = tuple(id(li.node) for li in t.loops)
+            matched = set()
+            for cvar, ix in t.matched:
+                r = roles.role.get(cvar)
+                if r and r[0] == "coord":
+                    matched.add((r[1], r[2], ix))
+            want = {}
+            for c, facs, idx in monos:
+                key = tuple(sorted((name, levels) for name, levels, _ in facs))
+                if key not in universe.get(region, ()):
+                    continue
+                present = all(
+                    (name, l, levels[l]) in matched
+                    for name, levels, modes in facs
+                    for l in range(len(levels))
+                    if modes[l] == info.compressed
+                )
+                if present:
+                    want.setdefault(key, []).append(c)
+            got = {}
+            for coef, reads, other in t.terms:
+                if coef == 0:
+                    continue
+                key = tuple(sorted((r.tensor, tuple(r.ixs)) for r in reads))
+                got.setdefault(key, []).append(coef)
+            missing = []
+            for key, coefs in want.items():
+                have = list(got.get(key, []))
+                for c in coefs:
+                    if c in have:
+                        have.remove(c)
+                    else:
+                        missing.append((key, c))
+            if missing:
+                key, c = missing[0]
+                k.fail(
+                    "C01.K-complete",
+                    kind,
+                    _tkey(t),
+                    f"every stored entry that {float(c):g} * {[n for n, _ in key] or '1'} needs is matched on this path, "
+                    "but the terminal does not add that monomial: a present operand is dropped",
+                )
+            else:
+                k.ok("C01.K-complete", max(1, len(want)))
+
+
 def rule_lattice_order(k):
     """C01.3: in every if/else-if chain inside a loop, no earlier arm's matched-leaf set is a strict
     subset of a later arm's; consecutive sub-loops of one node follow the same rule for their guard
